@@ -35,12 +35,12 @@ BOUNDS = {"quick": {"exhaustive_R_P": [3, 2]}, "thorough": {"exhaustive_R_P": [3
 REQUIRED = {"quick": {"flags_checked": 8000, "gate_absent_checked": 1500, "grad_entries_compared": 3000, "differential_compared": 300, "garbage_compared": 300, "exit_code_checked": 94, "history_calls_judged": 500, "infinite_value_cases_judged": 90, "rows_with_both_infinities": 100, "__nontrivial__": 300},
             "thorough": {"flags_checked": 400000, "gate_absent_checked": 80000, "grad_entries_compared": 100000, "differential_compared": 8000, "garbage_compared": 8000, "exit_code_checked": 1906, "history_calls_judged": 12000, "infinite_value_cases_judged": 1800, "rows_with_both_infinities": 2000, "__nontrivial__": 3000}}
 
-VARIANTS = ["mean", "stddev", "mixed_con", "filter_cvar", "filter_sort", "merged", "zero_weight"]
+VARIANTS = ["mean", "stddev", "mixed_con", "filter_cvar", "filter_sort", "merged", "zero_weight", "stddev_equal"]
 
 
 def _base_spec(R, P, variant, rng):
     V = 2
-    n_obj = 2 if variant in ("stddev", "filter_cvar") else 1
+    n_obj = 2 if variant in ("stddev", "stddev_equal", "filter_cvar") else 1
     n_con = 1 if variant in ("mixed_con", "filter_sort") else 0
     F = n_obj + n_con
     design = np.array([[1.0, 0.0], [0.0, 1.0], [1.0, 1.0], [-1.0, 0.5], [0.5, -1.0], [1.0, -1.0]])[:P]
@@ -53,8 +53,14 @@ def _base_spec(R, P, variant, rng):
     if variant == "zero_weight" and R >= 2:
         # a realization without weight that fails is a failed realization all the same (flags, thresholds, exit codes)
         spec["rweights"][1] = 0.0
-    if variant == "stddev":
+    if variant in ("stddev", "stddev_equal"):
         spec["estimators"], spec["omap_est"] = ["mean", "stddev"], [1, 0]
+    if variant == "stddev_equal":
+        # a quantity that does not depend on the realization: its spread (and the gradient of the spread) is zero with or without
+        # the failed realizations
+        e = spec["ensemble"]
+        e["a"] = [[e["a"][0][0], *row[1:]] for row in e["a"]]
+        e["b"] = [[e["b"][0][0], *row[1:]] for row in e["b"]]
     if variant == "mixed_con":
         spec["estimators"], spec["omap_est"], spec["cmap_est"] = ["mean", "stddev"], [0], [1]
     if variant == "filter_cvar":
